@@ -438,7 +438,7 @@ func sourceFamily(r *hx.Rng) [][][]byte {
 		}
 		sets = [][][]byte{a, m('c', 'd'), m(0x00, 0xff)}
 	default: // one larger set with smaller ones
-		sets = append(sets, randomWords(r, []byte("abc"), r.Range(100, 400), 8))
+		sets = append(sets, randomWords(r, []byte("abc"), r.Range(60, 250), 8))
 		for i, k := 0, r.Range(1, 2); i < k; i++ {
 			sets = append(sets, wordSet(r, randAlphabet(r)))
 		}
